@@ -41,6 +41,12 @@ CHECKS = {
         text='Expression trees are enumerated (all depth<=1 over all 23 operators, depth 2 over the 8 logical operators: restricted in quick, all 59049 in thorough, plus seeded deeper ones); for each tree the real functions run and z3 decides the assignment quantifier '
              '(requires/excludes soundness, split equivalence). Names are symbolic in the CrossHair conditions. Bounded.',
         note='Trusted: z3, CrossHair + patches, the reference truth tables in refsem.py (ast2z3 is cross-checked against tree2z3_expr on every tree). flamapy.core is executed as is; its simplify_formula defect is a listed known finding.'),
+    'C20': dict(
+        category='model_checking', design_ref='6 C20',
+        technique='CrossHair symbolic execution (z3) of __eq__/__hash__/__lt__ with symbolic names, cardinalities and Lehmer-coded permutations of names, children, relations and constraints',
+        text='Two independently built models per path: the permuted copy must be equal both ways with equal hash for every permutation code and every cardinality; a rename or a cardinality change must make them unequal. '
+             'Structural edits without payload (move, split, merge, constraint operator/operand) are enumerated natively per shape. Bounded.',
+        note='Trusted: CrossHair + patches, z3. hash() only on concrete names/cards. Shapes N<=4/5 (E1), N<=5/6 (native edits).'),
 }
 
 NOT_YET = {}
